@@ -7,6 +7,7 @@ import (
 	"os"
 	"path/filepath"
 	"runtime"
+	"strings"
 	"sync"
 	"sync/atomic"
 	"time"
@@ -706,6 +707,122 @@ func closeWhileBusy(r *rand.Rand, dir string, job int, t *Trace) {
 	os.RemoveAll(dir)
 }
 
+// updatePhase: a standing set of n documents (n = 1 included: an index whose only document is being
+// replaced goes through "no documents" inside the writer's critical section); one writer replaces document 1
+// by an equal version of itself over and over, readers search for a word every document carries. Every
+// document of the standing set was added before every search began and is never removed: each search must
+// return all of them.
+func updatePhase(kind int, n int, budget time.Duration, t *Trace) {
+	long := strings.Repeat("common filler words that take a while to tokenise ", 40)
+	var add func(id uint32) error
+	var search func() ([]uint32, error)
+	switch kind {
+	case 5:
+		ix := comet.NewBM25SearchIndex()
+		add = func(id uint32) error { return ix.Add(id, long) }
+		search = func() ([]uint32, error) {
+			res, err := ix.NewSearch().WithQuery("common").WithK(1 << 20).Execute()
+			ids := make([]uint32, len(res))
+			for i, x := range res {
+				ids[i] = x.Id
+			}
+			return ids, err
+		}
+	default:
+		v, _ := comet.NewFlatIndex(2, comet.Euclidean)
+		h := comet.NewHybridSearchIndex(v, comet.NewBM25SearchIndex(), comet.NewRoaringMetadataIndex())
+		add = func(id uint32) error {
+			h.Remove(id)
+			return h.AddWithID(id, []float32{1, 2}, long, nil)
+		}
+		search = func() ([]uint32, error) {
+			res, err := h.NewSearch().WithText("common").WithK(1 << 20).Execute()
+			ids := make([]uint32, len(res))
+			for i, x := range res {
+				ids[i] = x.ID
+			}
+			return ids, err
+		}
+	}
+	for id := 1; id <= n; id++ {
+		if err := add(uint32(id)); err != nil {
+			panic(err)
+		}
+	}
+	var searches, missed, panics int64
+	stop := make(chan struct{})
+	var wg sync.WaitGroup
+	if kind == 5 { // the hybrid's update is remove + add (two calls): only documents 2..n stand still there
+		wg.Add(1)
+		go func() {
+			defer wg.Done()
+			for {
+				select {
+				case <-stop:
+					return
+				default:
+				}
+				if catchPanic(func() { add(1) }) {
+					atomic.AddInt64(&panics, 1)
+				}
+				bump()
+			}
+		}()
+	} else {
+		wg.Add(1)
+		go func() {
+			defer wg.Done()
+			for {
+				select {
+				case <-stop:
+					return
+				default:
+				}
+				if catchPanic(func() { add(uint32(n + 1)) }) {
+					atomic.AddInt64(&panics, 1)
+				}
+				bump()
+			}
+		}()
+	}
+	for g := 0; g < 4; g++ {
+		wg.Add(1)
+		go func(g int) {
+			defer wg.Done()
+			lr := rand.New(rand.NewSource(int64(g) + 1))
+			for {
+				select {
+				case <-stop:
+					return
+				default:
+				}
+				var ids []uint32
+				if catchPanic(func() { ids, _ = search() }) {
+					atomic.AddInt64(&panics, 1)
+					continue
+				}
+				seen := map[uint32]bool{}
+				for _, id := range ids {
+					seen[id] = true
+				}
+				for id := 1; id <= n; id++ {
+					if !seen[uint32(id)] {
+						atomic.AddInt64(&missed, 1)
+						break
+					}
+				}
+				atomic.AddInt64(&searches, 1)
+				bump()
+				time.Sleep(time.Duration(lr.Intn(200)) * time.Microsecond) // out of lock-step with the writer
+			}
+		}(g)
+	}
+	time.Sleep(budget)
+	close(stop)
+	wg.Wait()
+	t.Emit(NewCase(1104).N(kind).N(n).I(searches).I(missed).I(panics), "update_phase."+[]string{"bm25", "hybrid"}[kind-5])
+}
+
 func genC11(r *rand.Rand, t *Trace, thorough bool) {
 	rounds := 1
 	opsPer := 40
@@ -742,6 +859,10 @@ func genC11(r *rand.Rand, t *Trace, thorough bool) {
 		os.RemoveAll(d2)
 		stress(mkStoreTarget(d2, true), 9, r, gs[r.Intn(len(gs))], opsPer, false, t)
 		os.RemoveAll(d2)
+		for _, n := range []int{1, 1, 3} {
+			updatePhase(5, n, nContend/5, t)
+			updatePhase(6, n, nContend/5, t)
+		}
 		for i := 0; i < 6; i++ {
 			storeCaseCounter++
 			closeWhileBusy(r, filepath.Join(work, "stores", fmt.Sprintf("x%d_%d", os.Getpid(), storeCaseCounter)), i%2, t)
